@@ -44,6 +44,18 @@ open Cherab.Props.C18 Cherab.Props.C18Real
 #print axioms covered_of_table
 #print axioms no_stale_histories
 #print axioms stale_of_uncovered
+-- proof-deepening pass
+#print axioms segments_tile_any_count
+#print axioms power_is_psd_times_delta
+#print axioms scattered_flat_response
+#print axioms scattered_constant_total
+#print axioms scattered_gauss_total
+#print axioms gauss_bin_power_nonneg
+#print axioms gauss_total_power_le_one
+#print axioms history_path_independent
+#print axioms attach_inv
+#print axioms attach_history_inv
+#print axioms notified_iff_holds
 -- integrals over ℝ
 #print axioms transverse_integral_unit
 #print axioms cbg_cross_section
